@@ -140,7 +140,30 @@ def run(chk):
         f = s.G.fn("_check_and_set_rar_parameters")
         n, n_start = K('n'), K('n_start')
         from ..genenv import rar_params
-        r = f(rar_params(), n, n_start)
+        try:
+            r = f(rar_params(), n, n_start)
+        except Top:
+            # the code needs the counts themselves (e.g. range(n)): the same obligations on concrete counts
+            msgs = []
+            for n_c, s_c in ((8, 3), (10, 5), (7, 7)):
+                r = f(rar_params(), n_c, s_c)
+                if not (isinstance(r, tuple) and len(r) == 4):
+                    raise Violation("result", str(r), "(n_start, p, period counter, step count)")
+                ns, p, since, J = r
+                p = to_at(p)
+                if lift(ns) != s_c or p.axes != (n_c,):
+                    raise Violation("initial state", f"n_start {ns}, mask axes {p.axes}", f"n_start {s_c}, a mask of {n_c} entries")
+                bad = [k_ for k_, e_ in enumerate(p.entries()) if (k_ < s_c) == lift(e_).is_zero()]
+                if bad:
+                    raise Violation("initial mask", f"n={n_c}, n_start={s_c}: entries {bad[:5]} are {'inactive' if bad[0] < s_c else 'active'}",
+                                    f"exactly the first {s_c} entries active")
+                if lift(since) != lift(K('update_every')) - 1 or lift(J) != 0:
+                    raise Violation("initial counters", f"period counter {since}, step count {J}", "update_every - 1 and 0")
+                msgs.append(f"n={n_c}, n_start={s_c}")
+            r2 = f(None, n, None)
+            if not (lift(r2[0]) == lift(n) and r2[1] is None and r2[2] is None and r2[3] is None):
+                raise Violation("no RAR", str(r2), "(n, None, None, None)")
+            return "concrete counts " + "; ".join(msgs) + ": first n_start entries active, period counter update_every - 1, step count 0"
         if not (isinstance(r, tuple) and len(r) == 4):
             raise Violation("result", str(r), "(n_start, p, period counter, step count)")
         ns, p, since, J = r
@@ -193,6 +216,16 @@ def run(chk):
             if lift(got_start) != lift(start):
                 raise Violation(f"{cname}.{startf}", f"{startf} = {got_start} after construction", f"the caller's {start}")
             p = as_sym(gen.fields[mask])
+            if isinstance(p, AT) and all(isinstance(a_, int) for a_ in p.axes):
+                # the mask itself, entry by entry (however it was written)
+                if p.axes != (total,):
+                    raise Violation(f"{cname}.{mask}", f"a mask with axes {p.axes}", f"one entry per pre-allocated point of this family ({total})")
+                ents = list(p.entries())
+                bad = [k_ for k_, e_ in enumerate(ents) if (k_ < start) == lift(e_).is_zero()]
+                if bad:
+                    raise Violation(f"{cname}.{mask}", f"entries {bad[:5]} are {'inactive' if bad[0] < start else 'active'}",
+                                    f"exactly the first {start} ({startf}) of {total} entries active")
+                continue
             if not is_sym(p, 'at_set', 3):
                 raise Inconclusive(f"{cname}.{mask}: initial mask idiom outside the rule's vocabulary: {str(p)[:160]}")
             base, idx, val = p.args
